@@ -3,6 +3,8 @@ package main
 // SSA function -> verification-condition items. See design/ENCODING.md.
 
 import (
+	"os"
+	"runtime/debug"
 	"fmt"
 	"go/ast"
 	"go/constant"
@@ -115,6 +117,8 @@ type fnTrans struct {
 	errs  []string
 	params map[string]Val
 	paramLV map[string]*LVal
+	locals    []localBinding
+	privAlloc map[*ssa.Alloc]bool
 	retBlocks []string
 	retPos    []string
 	declared map[string]bool
@@ -845,7 +849,7 @@ func oblKinds(ins ssa.Instruction) []string {
 	case *ssa.Return:
 		return []string{"post", "frame", "lock"}
 	case *ssa.Jump, *ssa.If:
-		return []string{"inv-entry", "inv-preserve", "variant"}
+		return []string{"inv-entry", "inv-preserve", "variant", "step"}
 	}
 	return nil
 }
@@ -878,6 +882,9 @@ func translateFunc(eng *Engine, fn *ssa.Function, ct *Contract) (t *fnTrans) {
 	defer func() {
 		if r := recover(); r != nil {
 			t.errorf("translator panic: %v", r)
+			if os.Getenv("GOVC_STACK") != "" {
+				debug.PrintStack()
+			}
 			if eng.debug {
 				panic(r)
 			}
@@ -1107,6 +1114,7 @@ func (t *fnTrans) block(b *ssa.BasicBlock) {
 					if !ok {
 						break
 					}
+					t.bindRangeSlice(phi, vars)
 					if phi.Comment != "" {
 						vars[phi.Comment] = t.val(phi.Edges[in.idx])
 					}
@@ -1159,6 +1167,7 @@ func (t *fnTrans) block(b *ssa.BasicBlock) {
 			for k, v := range vars {
 				env.vars[k] = v
 			}
+			t.bindLocalsAt(env, li.header)
 			for _, cl := range t.ct.LoopInv[li.ordinal] {
 				t.assume(env.evalBool(cl.Expr))
 			}
@@ -1210,6 +1219,59 @@ func (t *fnTrans) runGhosts(st *State, at string, loop int, vars map[string]Val)
 	}
 }
 
+// localBinding: a source-level local variable bound to an SSA value at a DebugRef.
+type localBinding struct {
+	name string
+	blk  *ssa.BasicBlock
+	val  Val
+}
+
+// bindLocals makes the locals whose binding dominates the current block visible by name (latest wins);
+// names already bound (parameters, loop variables) are not overridden.
+func (t *fnTrans) bindLocals(env *specEnv) {
+	t.bindLocalsAt(env, t.cur)
+}
+
+// bindLocalsAt: locals bound in blocks strictly dominating blk (for loop invariants: values fixed before the loop).
+func (t *fnTrans) bindLocalsAt(env *specEnv, blk *ssa.BasicBlock) {
+	if blk == nil {
+		return
+	}
+	strict := blk != t.cur
+	got := map[string]Val{}
+	for _, lb := range t.locals {
+		if (lb.blk == blk && !strict) || (lb.blk != blk && lb.blk.Dominates(blk)) {
+			got[lb.name] = lb.val
+		}
+	}
+	for k, v := range got {
+		if _, ok := env.vars[k]; !ok {
+			env.vars[k] = v
+		}
+	}
+}
+
+// bindRangeSlice: for a range-over-slice loop, the slice being ranged over is visible as `rangeslice`
+// (X of the IndexAddr indexed by rangeindex+1).
+func (t *fnTrans) bindRangeSlice(phi *ssa.Phi, vars map[string]Val) {
+	if phi.Comment != "rangeindex" || phi.Referrers() == nil {
+		return
+	}
+	for _, r1 := range *phi.Referrers() {
+		bo, ok := r1.(*ssa.BinOp)
+		if !ok || bo.Referrers() == nil {
+			continue
+		}
+		for _, r2 := range *bo.Referrers() {
+			if ia, ok := r2.(*ssa.IndexAddr); ok && ia.Index == ssa.Value(bo) {
+				if v, known := t.vals[ia.X]; known {
+					vars["rangeslice"] = v
+				}
+			}
+		}
+	}
+}
+
 func (t *fnTrans) loopVars(li *loopInfo) map[string]Val {
 	vars := map[string]Val{}
 	for _, ins := range li.header.Instrs {
@@ -1220,6 +1282,7 @@ func (t *fnTrans) loopVars(li *loopInfo) map[string]Val {
 		if phi.Comment != "" {
 			vars[phi.Comment] = t.vals[phi]
 		}
+		t.bindRangeSlice(phi, vars)
 		vars["$"+phi.Name()] = t.vals[phi]
 	}
 	return vars
@@ -1230,6 +1293,7 @@ func (t *fnTrans) checkInvariant(li *loopInfo, st *State, vars map[string]Val, g
 	for k, v := range vars {
 		env.vars[k] = v
 	}
+	t.bindLocalsAt(env, li.header)
 	if ri, ok := vars["rangeindex"]; ok {
 		// implicit invariant of every range-over-slice loop
 		t.obligG(kind, at, fmt.Sprintf("loop%d.rangeindex", li.ordinal), guard, and(le("(- 1)", ri.C[0]), le(ri.C[0], maxLenStr)), "implicit: -1 <= rangeindex <= 2^56")
@@ -1253,6 +1317,38 @@ func (t *fnTrans) checkInvariant(li *loopInfo, st *State, vars map[string]Val, g
 				ob.Tags = cl.Tags
 				ob.Known = cl.Known
 			}
+		}
+	}
+	if kind == "inv-preserve" && li.headSt != nil {
+		senv := t.specEnv(st, li.headSt)
+		senv.oldVars = map[string]Val{}
+		for k, v := range senv.vars {
+			senv.oldVars[k] = v
+		}
+		for k, v := range vars {
+			senv.vars[k] = v
+			senv.oldVars[k] = v
+		}
+		t.bindLocals(senv)
+		for k, v := range senv.vars {
+			if _, ok := senv.oldVars[k]; !ok {
+				senv.oldVars[k] = v
+			}
+		}
+		for i, cl := range t.ct.LoopStep[li.ordinal] {
+			label := cl.Label
+			if label == "" {
+				label = fmt.Sprintf("%d", i+1)
+			}
+			for pi, pe := range splitConj(cl.Expr) {
+				ob := t.obligG("step", at, fmt.Sprintf("loop%d.%s.%d", li.ordinal, label, pi+1), guard, senv.evalBool(pe), "every iteration: "+exprString(pe))
+				if ob != nil {
+					ob.Tags = cl.Tags
+				}
+			}
+		}
+		for _, e := range senv.errs {
+			t.errorf("loop %d step: %s", li.ordinal, e)
 		}
 	}
 	if kind == "inv-preserve" && li.variant != "" {
@@ -1680,6 +1776,23 @@ func (t *fnTrans) havocLoop(li *loopInfo) {
 			sortOf, ok = heapSortReg[k]
 		}
 		if !ok {
+			if cp, has := heapComp[k]; has && (strings.HasPrefix(k, "E.") || strings.HasPrefix(k, "F.") || strings.HasPrefix(k, "C.")) {
+				if strings.HasPrefix(k, "E.") {
+					sortOf, ok = arr2Sort(cp.Sort), true
+				} else {
+					sortOf, ok = arrSort(cp.Sort), true
+				}
+			}
+		}
+		if !ok && (strings.HasSuffix(k, ".tag") || strings.HasSuffix(k, ".val") || strings.HasSuffix(k, ".arr") || strings.HasSuffix(k, ".off") || strings.HasSuffix(k, ".len") || strings.HasSuffix(k, ".cap")) {
+			// components of interfaces and slices are always Int
+			if strings.HasPrefix(k, "E.") {
+				sortOf, ok = arr2Sort("Int"), true
+			} else if strings.HasPrefix(k, "F.") || strings.HasPrefix(k, "C.") {
+				sortOf, ok = arrSort("Int"), true
+			}
+		}
+		if !ok {
 			if k != "$top" && k != "$held" {
 				t.errorf("loop %d: cannot havoc heap %s (unknown sort)", li.ordinal, k)
 			}
@@ -1735,6 +1848,7 @@ func (t *fnTrans) setEdge(b *ssa.BasicBlock, k int, f string) {
 				if !ok {
 					break
 				}
+				t.bindRangeSlice(phi, vars)
 				if phi.Comment != "" {
 					vars[phi.Comment] = t.val(phi.Edges[pi])
 				}
